@@ -1,6 +1,7 @@
 """C02 - from_bytes accepts exactly the well-formed single-message encodings
 (E1: every integer sequence of length 0..3 over 0..255, longer ones over a
 boundary alphabet, ill-typed and out-of-range items)."""
+import array
 import itertools
 
 from .. import common
@@ -88,6 +89,8 @@ def worker(shard):
             _one(mido, acc, seq, bytes(seq), 'bytes')
             _one(mido, acc, seq, bytearray(seq), 'bytearray')
             _one(mido, acc, seq, tuple(seq), 'tuple')
+            _one(mido, acc, seq, memoryview(bytes(seq)), 'memoryview')
+            _one(mido, acc, seq, array.array('B', seq), 'array')
             hx = ' '.join('%02X' % b for b in seq)
             _hex(mido, acc, seq, hx)
         for a in alpha:
@@ -122,7 +125,10 @@ def _sysex_lengths(mido, acc, n):
     and around every multiple of 8/64/256 (bulk checks live there)."""
     good = [0xF0] + [(i * 7) & 0x7F for i in range(n)] + [0xF7]
     for form, conv in (('list', list), ('tuple', tuple), ('bytes', bytes),
-                       ('bytearray', bytearray)):
+                       ('bytearray', bytearray),
+                       ('memoryview', lambda q: memoryview(bytes(q))),
+                       ('array', lambda q: array.array('B', q)),
+                       ('array-h', lambda q: array.array('h', q))):
         _one(mido, acc, good, conv(good), form + '-sysexlen')
     if n <= 130:
         positions = range(1, n + 2)
@@ -355,8 +361,10 @@ def check_case(case):
     if case['kind'] == 'seq':
         seq = case['seq']
         form = case['form']
-        arg = {'bytes': bytes, 'bytearray': bytearray, 'tuple': tuple}.get(
-            form, list)(seq)
+        arg = {'bytes': bytes, 'bytearray': bytearray, 'tuple': tuple,
+               'memoryview': lambda q: memoryview(bytes(q)),
+               'array': lambda q: array.array('B', q)}.get(
+            form.split('-')[0], list)(seq)
         _one(mido, acc, seq, arg, form)
     elif case['kind'] == 'hex':
         toks = case['text'].split()
